@@ -28,11 +28,30 @@ RULE = ('case = (context table, ordered list of extents of concepts mined by clo
         'every routine must leave the list it was given untouched '
         '(also lists whose greatest/least is not the lattice top/bottom, so that the new-top / new-bottom branches run); '
         'is_concepts_sorted=True only on linear extensions of the order; then seeded random pruned lists up to 30 concepts '
-        'from 6x6 tables (14x8 in the thorough tier). non-trivial = at least one concept strictly between top and bottom; '
+        'from 6x6 tables (14x8 in the thorough tier). '
+        'Listing orders of lists of more than 5 concepts also include two that LOOK sorted (H7): greatest first and least last '
+        'around a shuffled inner part, and size-sorted except for one swapped pair of comparable neighbours. '
+        'Size-gated paths (H8), directed and deterministic, concepts built directly from extents of a stated context (every '
+        'extent checked to be closed in it), `extent_i` listed ascending / descending / shuffled: '
+        '(a) sizegate-objects: 64/65, 128/129, 256/257 objects (512..1025 in the thorough tier), an 11-concept list that is '
+        'not intersection-closed in which the two highest objects alone decide inclusions ({0,h} is not below {0,1,2} but is '
+        'once h is dropped; {0,1,2} < {0,1,2,h2}; {1,h} and {1,h2} coincide without them), every routine incl. n_jobs 2/3/5, '
+        'construct_spanning_tree -> _get_chains -> construct_lattice_from_spanning_tree(_parallel) called one by one (fst), '
+        'add/remove of every kind, and order_extents_comparison on the intersection closure; '
+        '(b) sizegate-mid: exactly 64, 65, 128, 129 concepts: pruned Boolean lattice 2^7 / 2^8, antichain of two-object '
+        'extents, disjoint chains with cross concepts (none intersection-closed) and a chain (complete: also '
+        'order_extents_comparison), models run; (c) sizegate-big: 999, 1000, 1001, 1004 concepts pruned from the 1024-concept '
+        'contranominal 10x10 lattice (the complete one for order_extents_comparison), 8 disjoint 124-chains + 12 cross concepts '
+        '(1006 concepts, 992 objects), an antichain of 1000 and a chain of 1001 concepts (1000 objects), complete_comparison '
+        '(n_jobs 1-3, both flags), spanning-tree routines (n_jobs 8 once, on a list with few chains), tree+chains, add/remove '
+        'in both inplace modes, relation from the oracle or from the routines themselves; judged by the bit-set oracle '
+        'Spec.Fast (proved EQUAL to Spec.covers: fast_oracle_exact), models not run above 200 concepts. '
+        'non-trivial = at least one concept strictly between top and bottom; '
         'distinct = distinct (extent list, routine, flags)')
 EXHAUSTIVE = {
     'quick': 'all tables n,m<=3 (64 distinct concept sets, 367 sub-lists keeping top and bottom, 10420 (list, order) pairs) x '
-             '{complete_comparison, spanning tree} x sorted flag where admissible; add/remove on every candidate concept',
+             '{complete_comparison, spanning tree} x sorted flag where admissible; add/remove on every candidate concept; '
+             'plus the directed threshold cases 64/65, 128/129, 256/257 objects and 64/65, 128/129, 999-1004 concepts',
     'thorough': 'all tables n*m<=12, n,m<=4 (591 concept sets, 6510 sub-lists, 234862 (list, order) pairs); n_jobs>1 runs are '
                 'repeated under sys.setswitchinterval in {1e-6, 1e-5, 1e-3}'}
 EXPLANATION = ('the children dictionary is pinned uniquely by the property (sets compared as sorted lists), so implementation != '
@@ -40,20 +59,29 @@ EXPLANATION = ('the children dictionary is pinned uniquely by the property (sets
                'flags), spanning tree + chains + chain sweep + final reduction (sequential and batched-parallel for every scan '
                'order of a batch), the add/remove helpers, and the index translation of order_extents_comparison; the driver '
                'additionally evaluates the sweep model under several set-iteration orders and batch schedules (variants_agree) '
-               'and applies the Lean chain checker to the implementation\'s own tree and chains')
+               'and applies the Lean chain checker to the implementation\'s own tree and chains; pruned_list_covers: every '
+               'sub-list keeping the greatest concept inherits the hypotheses (no closure under intersection is assumed), '
+               'result_depends_on_extents_as_sets: the order in which a concept lists its objects is irrelevant; the driver '
+               'evaluates spec and models through tabulated forms proved equal to the definitions (fast_oracle_exact, '
+               'models_at_fast_lt) and cross-checks both evaluations on every list of <= 12 concepts')
 ASSUMPTIONS = ['add_concept / remove_concept with inplace=False leave the caller\'s list and relation dictionaries unchanged; with '
                'inplace=True the passed objects hold the result (checked on the real code, not part of the Lean theorems: the model is pure)',
                'the concepts of a list come from one context, are pairwise different, and extents are duplicate-free',
                'the list contains a greatest and a least concept (only complete_comparison is also run without)',
                'is_concepts_sorted=True is only used on lists in which every strict superconcept precedes its subconcepts',
                'n_jobs >= 1',
+               'directed large cases: the concepts are FormalConcept objects built from extents and the intents computed from '
+               'the stated attribute extents (context_hash None, as for concepts read from a file); every extent is checked to '
+               'be closed in that context',
                'add_concept: the new concept is not in the list and the enlarged list still has a greatest and a least concept; '
                'remove_concept: the reduced list still has them; both are given the correct cover relation']
 TRUSTED = ['joblib: Parallel returns results in submission order; threading backend joins a batch before the next starts',
            'thread interleavings below the granularity of one iterate_chain call are not modelled (GIL-level races are only '
            'probed by the setswitchinterval sweep)',
            'caspailleur.order (topological_sorting / sort_intents_inclusion / inverse_order) is modelled by its contract',
-           'CPython iterates a set of ints < 8 in ascending order (used only for the tree-equality diagnostic)']
+           'CPython iterates a set of ints < 8 in ascending order (used only for the tree-equality diagnostic)',
+           'lists of more than 200 concepts: only the specification is evaluated in Lean (model = spec is the theorem); the '
+           'implementation-side time guard is 120 s CPU there']
 CHUNK = 250
 REQUESTS_NEED_IMPL = True
 
@@ -88,9 +116,64 @@ def mined(rows, miner='cbo'):
     return _mined(tuple(tuple(r) for r in rows), miner)
 
 
+def _mask(e):
+    m = 0
+    for g in e:
+        m |= 1 << g
+    return m
+
+
+class NotAConcept(Exception):
+    pass
+
+
+@functools.lru_cache(maxsize=4)
+def _direct(exts_key, cols_key, extra_key, nobj):
+    """FormalConcepts built directly from extents (the large directed cases: mining a 1000-object context is not what is
+    under test here).  `exts_key`: the listed extents, each in the order in which `extent_i` shall list the objects (not
+    necessarily ascending); `extra_key`: candidates of add_concept; the context has `nobj` objects and the attribute
+    extents `cols_key` — or, for 'self', one attribute per listed / candidate extent, so that every one of them is an
+    attribute extent, hence closed.  Every intent is computed from the columns, and every extent is checked to be the
+    intersection of the columns of its intent (a genuine concept of that context)."""
+    from fcapy.lattice.formal_concept import FormalConcept
+    fam = list(exts_key) + list(extra_key)
+    cm = [_mask(col) for col in (fam if cols_key == 'self' else cols_key)]
+    full = (1 << nobj) - 1
+    out = []
+    for e in fam:
+        m = _mask(e)
+        if len(set(e)) != len(e) or m > full:
+            raise NotAConcept(f'bad extent {e[:8]}...')
+        it = tuple(j for j, cmj in enumerate(cm) if m & ~cmj == 0)
+        closure = full
+        for j in it:
+            closure &= cm[j]
+        if closure != m:
+            raise NotAConcept(f'extent {e[:8]}... is not closed in the context of the case')
+        out.append(FormalConcept(tuple(e), tuple('g%d' % g for g in e), it, tuple('m%d' % j for j in it)))
+    return tuple(out[:len(exts_key)]), {tuple(sorted(e)): x for e, x in zip(extra_key, out[len(exts_key):])}
+
+
+def _direct_of(c):
+    extra = []
+    if c['routine'] == 'add':
+        extra = [c['new']] + list(c.get('more', []))
+    cols = c['cols'] if c['cols'] == 'self' else tuple(tuple(col) for col in c['cols'])
+    return _direct(tuple(tuple(e) for e in c['exts']), cols, tuple(tuple(e) for e in extra), c['nobj'])
+
+
 def concept_list(c):
+    if 'cols' in c:
+        return list(_direct_of(c)[0])
     m = mined(c['rows'], c.get('miner', 'cbo'))
     return [m[tuple(e)] for e in c['exts']]
+
+
+def candidate_concept(c, cand):
+    """the concept object handed to add_concept for the candidate extent `cand`"""
+    if 'cols' in c:
+        return _direct_of(c)[1][tuple(sorted(cand))]
+    return mined(c['rows'], c.get('miner', 'cbo'))[tuple(cand)]
 
 
 def real_exts(c):
@@ -106,18 +189,36 @@ def canon_dict(d, n):
 
 
 def py_covers(exts):
-    S = [frozenset(e) for e in exts]
-    n = len(S)
-    low = [[j for j in range(n) if S[j] < S[i]] for i in range(n)]
-    sub = [[j for j in low[i] if not any(S[j] < S[k] for k in low[i])] for i in range(n)]
-    sup = [[i for i in range(n) if j in sub[i]] for j in range(n)]
+    """(lower covers, upper covers) of every index — only used to PREPARE the relation handed to add_concept /
+    remove_concept (the Lean oracle re-checks it: `in_ok` / `base` replies).  Lists of more than 64 concepts: the same by
+    Python big-integer bit sets (definition-shaped code is cubic)."""
+    n = len(exts)
+    if n <= 64:
+        S = [frozenset(e) for e in exts]
+        low = [[j for j in range(n) if S[j] < S[i]] for i in range(n)]
+        sub = [[j for j in low[i] if not any(S[j] < S[k] for k in low[i])] for i in range(n)]
+    else:
+        M = [_mask(e) for e in exts]
+        low = [[j for j in range(n) if M[j] != mi and M[j] & ~mi == 0] for mi in M]
+        rows = [_mask(lo) for lo in low]
+        sub = []
+        for lo in low:
+            u = 0
+            for k in lo:
+                u |= rows[k]
+            sub.append([j for j in lo if not (u >> j) & 1])
+    sup = [[] for _ in range(n)]
+    for i in range(n):
+        for j in sub[i]:
+            sup[j].append(i)
     return sub, sup
 
 
 def top_bottom(exts):
-    S = [frozenset(e) for e in exts]
-    t = [i for i in range(len(S)) if all(S[j] < S[i] for j in range(len(S)) if j != i)]
-    b = [i for i in range(len(S)) if all(S[i] < S[j] for j in range(len(S)) if j != i)]
+    M = [_mask(e) for e in exts]
+    r = range(len(M))
+    t = [i for i in r if all(j == i or (M[j] != M[i] and M[j] & ~M[i] == 0) for j in r)]
+    b = [i for i in r if all(j == i or (M[j] != M[i] and M[i] & ~M[j] == 0) for j in r)]
     return (t[0] if t else None), (b[0] if b else None)
 
 
@@ -204,24 +305,41 @@ def _on_alarm(signum, frame):
 def impl(c):
     import fcapy.algorithms.lattice_construction as lca
     from fcapy.lattice import ConceptLattice
-    cs = concept_list(c)
+    if c.get('big') and sys.gettrace() is not None:
+        # the runner re-executes a sample of the cases under a line tracer for its coverage diagnostic; the 1000-concept
+        # cases enter no function that the small ones do not, and would take minutes when traced
+        return {'skipped': 'large case under a tracer'}
+    try:
+        cs = concept_list(c)
+    except NotAConcept as e:
+        return {'not_a_concept': str(e)}
     n = len(cs)
     r = c['routine']
     old = sys.getswitchinterval()
     old_handler = signal.signal(signal.SIGALRM, _on_alarm)
     old_prof = signal.signal(signal.SIGPROF, _on_alarm)
-    signal.setitimer(signal.ITIMER_REAL, IMPL_WALL_LIMIT_S)
-    signal.setitimer(signal.ITIMER_PROF, IMPL_CPU_LIMIT_S)
+    signal.setitimer(signal.ITIMER_REAL, IMPL_WALL_LIMIT_S * (5 if c.get('big') else 1))
+    signal.setitimer(signal.ITIMER_PROF, IMPL_CPU_LIMIT_S * (20 if c.get('big') else 1))
     try:
         if c.get('swi'):
             sys.setswitchinterval(c['swi'])
-        if r in ('cc', 'st', 'tree', 'oe'):
+        if r in ('cc', 'st', 'fst', 'tree', 'oe'):
             arg = tuple(cs) if c.get('ctype') == 'tuple' else cs
             if r == 'cc':
                 res = canon_dict(lca.complete_comparison(arg, is_concepts_sorted=c['sorted'], n_jobs=c['njobs']), n)
             elif r == 'st':
                 res = canon_dict(lca.construct_lattice_by_spanning_tree(arg, is_concepts_sorted=c['sorted'],
                                                                         n_jobs=c['njobs']), n)
+            elif r == 'fst':
+                # the three stages called one by one, as `construct_lattice_by_spanning_tree` chains them
+                _, sup = lca.construct_spanning_tree(arg, is_concepts_sorted=c['sorted'])
+                chains = ConceptLattice._get_chains(arg, sup, is_concepts_sorted=c['sorted'])
+                if c['njobs'] == 1:
+                    d = lca.construct_lattice_from_spanning_tree(arg, chains, is_concepts_sorted=c['sorted'])
+                else:
+                    d = lca.construct_lattice_from_spanning_tree_parallel(arg, chains, is_concepts_sorted=c['sorted'],
+                                                                          n_jobs=c['njobs'])
+                res = canon_dict(d, n)
             elif r == 'tree':
                 sub, sup = lca.construct_spanning_tree(arg, is_concepts_sorted=c['sorted'])
                 chains = ConceptLattice._get_chains(arg, sup, is_concepts_sorted=c['sorted'])
@@ -245,7 +363,7 @@ def impl(c):
         for cand in cands:
             try:
                 if r == 'add':
-                    out = lca.add_concept(mined(c['rows'], c.get('miner', 'cbo'))[tuple(cand)], cs, subd, supd, t, b,
+                    out = lca.add_concept(candidate_concept(c, cand), cs, subd, supd, t, b,
                                           inplace=c['inplace'])
                     m = n + 1
                 else:
@@ -288,10 +406,38 @@ def id_to_topo(exts):
     return [pos[i] for i in range(n)]
 
 
-def requests(c, io):
+def cand_list(c):
+    return [c['new'] if c['routine'] == 'add' else c['ci']] + (list(c.get('more', [])) if not c['inplace'] else [])
+
+
+def requests_big(c, io):
+    """1000-concept lists: only the specification is evaluated (bit-set oracle `Spec.Fast`, proved EQUAL to `Spec.covers`:
+    Fca.C12.fast_oracle_exact); the models are not run (model = spec is a theorem; the models walk Lean lists)."""
     r = c['routine']
-    if r in ('cc', 'st'):
-        return [dict(op='C12.' + r, cs=real_exts(c), sorted=c['sorted'], njobs=c['njobs'], ord='asc')]
+    if r in ('cc', 'st', 'fst', 'oe'):
+        return [dict(op='C12.covers_fast', cs=real_exts(c))]
+    if r == 'tree':
+        ok = io.get('ok') if isinstance(io, dict) else None
+        good = isinstance(ok, dict) and isinstance(ok.get('sup'), list) and isinstance(ok.get('sub'), list)
+        return [dict(op='C12.tree_check', cs=real_exts(c), implSup=ok['sup'] if good else [],
+                     implChains=ok['chains'] if good else [])]
+    # (the relation prepared by the harness for the helper is re-checked by the oracle, except where the list alone is 2 MB)
+    out = [dict(op='C12.covers_fast', cs=c['exts'] if sum(map(len, c['exts'])) < 200000 else [])]
+    for cand in cand_list(c):
+        res = c['exts'] + [cand] if r == 'add' else [e for i, e in enumerate(c['exts']) if i != cand]
+        out.append(dict(op='C12.covers_fast', cs=res))
+    return out
+
+
+def requests(c, io):
+    if c.get('big'):
+        return requests_big(c, io)
+    r = c['routine']
+    if r in ('cc', 'st', 'fst'):
+        q = dict(op='C12.' + ('cc' if r == 'cc' else 'st'), cs=real_exts(c), sorted=c['sorted'], njobs=c['njobs'], ord='asc')
+        if len(c['exts']) >= 64 and r != 'cc':
+            q['novariants'] = True      # the other set orders / schedules of the model are evaluated on the small lists
+        return [q]
     if r == 'tree':
         ok = io.get('ok') if isinstance(io, dict) else None
         good = isinstance(ok, dict) and isinstance(ok.get('sup'), list) and isinstance(ok.get('sub'), list)
@@ -318,7 +464,97 @@ def judge(c, io, rep):
     return v
 
 
+def diff_summary(got, want, exts, k=3):
+    """the first few indexes at which two relation lists differ (the full dictionaries of a 1000-concept list are not
+    printed)"""
+    if not isinstance(got, list) or len(got) != len(want):
+        return f'{str(got)[:200]} (expected one entry per concept, {len(want)})'
+    bad = [i for i in range(len(want)) if got[i] != want[i]]
+    show = '; '.join(f'concept #{i} (extent {sorted(exts[i])[:12]}{"..." if len(exts[i]) > 12 else ""}): returned '
+                     f'{got[i][:12]}, lower covers are {want[i][:12]}' for i in bad[:k])
+    return f'{len(bad)} of {len(want)} concepts differ, e.g. {show}'
+
+
+def judge_big(c, io, rep):
+    r = c['routine']
+    n = len(c['exts'])
+    flags = f'{r}(sorted={c.get("sorted")}, n_jobs={c.get("njobs")}) on {n} concepts over {c["nobj"]} objects ({c.get("fam")})'
+    if 'not_a_concept' in io:
+        return dict(ok=False, kind='harness', detail='generated case is not a list of concepts: ' + io['not_a_concept'])
+    if 'input_intact' in io:
+        if not io['input_intact']:
+            return dict(ok=False, kind='property', detail=f'{flags} modified the concept list it was given')
+        io = {k: v for k, v in io.items() if k != 'input_intact'}
+    if r in ('cc', 'st', 'fst', 'oe'):
+        want = rep[0]['spec']['sub']
+        if io.get('ok') != want:
+            what = diff_summary(io['ok'], want, c['exts']) if 'ok' in io else str(io)[:300]
+            return dict(ok=False, kind='property', detail=f'{flags}: {what}')
+        return dict(ok=True)
+    if r == 'tree':
+        if 'ok' not in io:
+            return dict(ok=False, kind='correspondence', detail=f'{flags}: {str(io)[:300]}')
+        ok = io['ok']
+        sup, sub = ok['sup'], ok['sub']
+        if not (isinstance(sup, list) and isinstance(sub, list)) or \
+                any(sorted(i for i in range(n) if sup[i] == [p]) != sub[p] for p in range(n)):
+            return dict(ok=False, kind='correspondence', detail=f'{flags}: children / parent dictionaries of the tree disagree')
+        if not rep[0]['impl_chains_ok']:
+            return dict(ok=False, kind='correspondence',
+                        detail=f'{flags}: chains/tree of the implementation violate the chain property')
+        return dict(ok=True)
+    # add / rem
+    if 'pipeline' in io:
+        return dict(ok=False, kind='property',
+                    detail=f'{flags}: the relation produced for the helper by {c.get("rel")} is not the cover relation of '
+                           f'the list: {io["pipeline"]}')
+    if 'calls' not in io:
+        return dict(ok=False, kind='property', detail=f'{flags} raised {str(io)[:300]}')
+    base = rep[0]['spec']
+    sub0, sup0 = py_covers(c['exts'])
+    t0, b0 = top_bottom(c['exts'])
+    if len(base['sub']) == n and ([sorted(x) for x in sub0] != base['sub'] or [sorted(x) for x in sup0] != base['sup']
+                                  or (t0, b0) != (base['top'], base['bot'])):
+        return dict(ok=False, kind='harness', detail='relation prepared for the helper is not the cover relation of the base')
+    cands = cand_list(c)
+    if len(io['calls']) != len(cands):
+        return dict(ok=False, kind='harness', detail='history length mismatch')
+    for k, (cand, res, q) in enumerate(zip(cands, io['calls'], rep[1:])):
+        spec = q['spec']
+        if r == 'add':
+            want_exts = [sorted(e) for e in c['exts']] + [sorted(cand)]
+        else:
+            want_exts = [sorted(e) for i, e in enumerate(c['exts']) if i != cand]
+        where = f'{flags}: {r}({str(cand)[:60]}, inplace={c["inplace"]}, relation={c.get("rel", "oracle sets")}), call {k + 1}'
+        got = res.get('ok')
+        if not isinstance(got, dict):
+            return dict(ok=False, kind='property', detail=f'{where} returned {str(res)[:200]}')
+        if got['exts'] != want_exts:
+            return dict(ok=False, kind='property', detail=f'{where}: wrong concept list returned')
+        for fld, name in (('sub', 'children'), ('sup', 'parents')):
+            if got[fld] != spec[fld]:
+                return dict(ok=False, kind='property',
+                            detail=f'{where}: {name}: {diff_summary(got[fld], spec[fld], want_exts)}')
+        if (got['top'], got['bot']) != (spec['top'], spec['bot']):
+            return dict(ok=False, kind='property', detail=f'{where}: top/bottom {got["top"]}/{got["bot"]}, expected '
+                                                          f'{spec["top"]}/{spec["bot"]}')
+        if c['inplace'] and not res.get('passed_hold_result'):
+            return dict(ok=False, kind='property',
+                        detail=f'{where}: the list / dictionaries passed in do not hold the returned result afterwards')
+        if not c['inplace'] and not res.get('base_intact'):
+            return dict(ok=False, kind='property',
+                        detail=f'{where}: the caller\'s concepts / relation were modified although inplace=False')
+    return dict(ok=True)
+
+
 def _judge(c, io, rep):
+    if c.get('big'):
+        return judge_big(c, io, rep)
+    if isinstance(io, dict) and 'not_a_concept' in io:
+        return dict(ok=False, kind='harness', detail='generated case is not a list of concepts: ' + io['not_a_concept'])
+    if any(q.get('fast_agrees') is False for q in rep):
+        return dict(ok=False, kind='harness', detail='driver: tabulated (Spec.Fast / ...F) and plain evaluation of the spec or '
+                                                     'the model disagree (contradicts fast_oracle_exact / models_at_fast_lt)')
     if isinstance(io, dict) and 'input_intact' in io:
         if not io['input_intact']:
             return dict(ok=False, kind='property',
@@ -327,7 +563,7 @@ def _judge(c, io, rep):
     r = c['routine']
     q = rep[0]
     mal = c['stream'] == 'malformed'
-    if r in ('cc', 'st'):
+    if r in ('cc', 'st', 'fst'):
         want = {'ok': q['spec']}
         model = {'ok': q['model']} if isinstance(q['model'], list) else q['model']
         if mal:     # outside the property's scope: only implementation = model is checked
@@ -339,7 +575,7 @@ def _judge(c, io, rep):
                         detail=f'{r}(sorted={c["sorted"]}, n_jobs={c["njobs"]}) returned {io}, covers are {q["spec"]}')
         if model != want:
             return dict(ok=False, kind='harness', detail=f'model {model} != spec {q["spec"]} (contradicts a theorem)')
-        if r == 'st' and not q.get('variants_agree', True):
+        if r != 'cc' and not q.get('variants_agree', True):
             return dict(ok=False, kind='harness', detail='model depends on set order / batch schedule (contradicts '
                                                          'spanning_tree_parallel_sched_indep)')
         return dict(ok=True)
@@ -435,6 +671,13 @@ def orders_of(lst, rng, nshuffle):
     if len(lst) <= 5:
         return [list(p) for p in itertools.permutations(lst)]
     out = [list(lst), list(lst[::-1])]
+    # (H7) listings that LOOK sorted: greatest first and least last around a shuffled inner part; size-sorted except for
+    # one swapped pair of comparable neighbours
+    inner = list(lst[1:-1])
+    rng.shuffle(inner)
+    for p in (list(lst[:1]) + inner + list(lst[-1:]), listing(lst, rng, 'swap')):
+        if p not in out:
+            out.append(p)
     for _ in range(nshuffle):
         p = list(lst)
         rng.shuffle(p)
@@ -576,7 +819,7 @@ def random_cases(rng, count, nmax, mmax, cap, par_p, swis, nmin=2, mmin=2):
             sub = rng.sample(sub, cap - 2)
             sub.sort(key=lambda e: (-len(e), e))
         lst = [top] + sub + [bot]
-        for order in orders_of(lst, rng, 2)[:4] if len(lst) > 5 else [lst, rng.sample(lst, len(lst))]:
+        for order in orders_of(lst, rng, 2)[:6] if len(lst) > 5 else [lst, rng.sample(lst, len(lst))]:
             par = ()
             if rng.random() < par_p:
                 par = (rng.choice((2, 3, 5)),)
@@ -607,6 +850,327 @@ def malformed(rng, tables):
                     yield c
 
 
+# ---------------------------------------------------------------------------------------------------
+# (H8) size-gated code paths: directed deterministic cases across 64/65, 128/129, 256/257 OBJECTS and 64/65, 128/129,
+# 999..1004 CONCEPTS, on inputs where an algorithm that is only right for complete (intersection-closed) concept sets,
+# for <= 64 / <= 128 objects, for ascending extent tuples or for sorted listings is WRONG.  Concepts are built directly.
+# ---------------------------------------------------------------------------------------------------
+
+GADGET = [[0, 1, 2, 3], [0, 1, 2], [0, 1, 3], [0, 2, 3], [1, 2, 3], [0, 1], [1, 2], [1, 3], [2, 3], [0], [1], [2], [3]]
+# the 16 subsets of four objects without {0,2}, {0,3} and the empty set: the smallest pruned list (found by enumeration) on
+# which the bit-set routine `order_extents_comparison` returns a wrong relation; embedded (on objects of its own) in the
+# directed families so that an algorithm which is only right on intersection-closed lists is wrong on them
+
+
+def fam_objects(n):
+    """24 concepts over n objects in which the objects n-1 and n-2 alone decide inclusions: {0,h} is NOT below {0,1,2}
+    (but is, once h is dropped), {0,1,2} < {0,1,2,h2} and {0,h} < {0,h,h2} differ by one high object only, {1,h} and
+    {1,h2} are different incomparable concepts that coincide without the high objects; plus GADGET on the objects 3..6.
+    Not intersection-closed ({0,1,2,h2} & {0,h,h2} = {0,h2} is missing)."""
+    h, h2 = n - 1, n - 2
+    return [list(range(n)), [0, 1, 2, h2], [0, h, h2], [1, h, h2], [0, 1, 2], [0, h], [1, h2], [1, h], [0], [1]] + \
+           [[g + 3 for g in e] for e in GADGET] + [[]]
+
+
+def close_family(exts):
+    """closure under intersection (as sorted lists, largest first)"""
+    fam = {frozenset(e) for e in exts}
+    work = list(fam)
+    while work:
+        a = work.pop()
+        for b in list(fam):
+            x = a & b
+            if x not in fam:
+                fam.add(x)
+                work.append(x)
+    return sorted((sorted(e) for e in fam), key=lambda e: (-len(e), e))
+
+
+def nonclosed_witness(exts):
+    """two listed extents whose intersection is not listed (None for an intersection-closed list); early exit"""
+    M = [_mask(e) for e in exts]
+    have = set(M)
+    for a in M:
+        for b in M:
+            if a & b not in have:
+                return a, b
+    return None
+
+
+def fam_boolean(k, m, rng):
+    """m of the 2^k concepts of the contranominal k x k context (all subsets of the objects), top and bottom kept; for
+    m < 2^k the dropped ones are chosen among the inner levels so that the list is not intersection-closed"""
+    allx = [list(x) for r in range(k, -1, -1) for x in itertools.combinations(range(k), r)]
+    if m == len(allx):
+        return allx
+    while True:
+        drop = set(rng.sample(range(1, len(allx) - 1), len(allx) - m))
+        lst = [e for i, e in enumerate(allx) if i not in drop]
+        if nonclosed_witness(lst) is not None:
+            return lst
+
+
+def fam_antichain(m):
+    """top, bottom and m-2 pairwise incomparable two-object extents {i, i+1}: no intersection of two of them is listed"""
+    w = m - 2
+    return [list(range(w))] + [[i, (i + 1) % w] for i in range(w)] + [[]]
+
+
+def fam_chain(m):
+    """a chain of m concepts (complete: order_extents_comparison applies)"""
+    return [list(range(k)) for k in range(m - 1, -1, -1)]
+
+
+def fam_multichain(w, ln, ncross=0):
+    """GADGET on the objects 0..3 next to w disjoint chains of `ln` concepts each (chain a: objects 4+a*ln .. 4+a*ln+ln-1)
+    between a top and the empty bottom, plus 2*ncross 'cross' concepts E(0,x) | E(1,y), E(0,y) | E(1,x) whose intersections
+    are not listed.  Not intersection-closed; the spanning tree has only about w + 6 chains, so the threaded sweep needs
+    few batches per concept."""
+    def e(a, k):
+        return list(range(4 + a * ln, 4 + a * ln + k + 1))
+    out = [list(range(4 + w * ln))] + [list(x) for x in GADGET]
+    for a in range(w):
+        out += [e(a, k) for k in range(ln)]
+    for i in range(ncross):
+        x, y = 3 * i + 1, 3 * i + 2
+        out += [e(0, x) + e(1, y), e(0, y) + e(1, x)]
+    out.append([])
+    return sorted(out, key=lambda q: (-len(q), q))
+
+
+def scramble(exts, rng, how):
+    """the order in which each concept lists its objects (`extent_i`): ascending, descending or shuffled"""
+    if how == 'asc':
+        return [sorted(e) for e in exts]
+    if how == 'desc':
+        return [sorted(e, reverse=True) for e in exts]
+    out = []
+    for e in exts:
+        e = list(e)
+        rng.shuffle(e)
+        out.append(e)
+    return out
+
+
+def listing(exts, rng, how):
+    """listing orders of the concept list (H7: orders that LOOK sorted): size-sorted; shuffled; greatest first and least
+    last with the inner part shuffled; size-sorted except that one comparable neighbour pair is swapped; reversed"""
+    srt = sorted(exts, key=lambda e: (-len(e), sorted(e)))
+    if how == 'sorted':
+        return srt
+    if how == 'reversed':
+        return srt[::-1]
+    if how == 'shuffled':
+        p = list(srt)
+        rng.shuffle(p)
+        return p
+    if how == 'ends':
+        inner = srt[1:-1]
+        rng.shuffle(inner)
+        return srt[:1] + inner + srt[-1:]
+    if how == 'swap':
+        p = list(srt)
+        cand = [i for i in range(1, len(p) - 2) if set(p[i + 1]) < set(p[i])]
+        if cand:
+            i = cand[len(cand) // 2]
+            p[i], p[i + 1] = p[i + 1], p[i]
+        return p
+    raise ValueError(how)
+
+
+def direct_case(stream, fam, nobj, exts, routine, cols='self', **kw):
+    c = dict(stream=stream, fam=fam, nobj=nobj, cols=cols, exts=exts, routine=routine, **kw)
+    if len(exts) > BIG_FROM:
+        c['big'] = True
+    return c
+
+
+BIG_FROM = 200        # lists longer than this are judged by the fast oracle only (no model run)
+
+
+def direct_routines(stream, fam, nobj, exts, rng, orders, jobs=(2,), cols='self', oe=False, tree=True, fst=True):
+    """the construction routines on one family: every listing order in `orders` with the unsorted flag, and the sorted
+    flag on the size-sorted listing; `jobs`: job counts of the threaded sweep (every batch of chains costs one pool
+    dispatch of about 10 ms per concept: only given for families whose spanning tree has few chains)"""
+    for how in orders:
+        lst = listing(exts, rng, how)
+        f = fam + ':' + how
+        kw = dict(cols=cols, sorted=False)
+        yield direct_case(stream, f, nobj, lst, 'cc', njobs=1, **kw)
+        yield direct_case(stream, f, nobj, lst, 'st', njobs=1, **kw)
+        if how == 'shuffled':
+            yield direct_case(stream, f, nobj, lst, 'cc', njobs=(jobs or (2,))[0], **kw)
+            for nj in jobs:
+                yield direct_case(stream, f, nobj, lst, 'fst' if fst else 'st', njobs=nj, **kw)
+            if fst:
+                yield direct_case(stream, f, nobj, lst, 'fst', njobs=1, **kw)
+            if tree:
+                yield direct_case(stream, f, nobj, lst, 'tree', cols=cols, sorted=False)
+        if how == 'sorted':
+            kw = dict(cols=cols, sorted=True)
+            yield direct_case(stream, f, nobj, lst, 'cc', njobs=1, **kw)
+            yield direct_case(stream, f, nobj, lst, 'st', njobs=1, **kw)
+            for nj in jobs[:1] if len(exts) < 100 else ():
+                yield direct_case(stream, f, nobj, lst, 'st', njobs=nj, **kw)
+            if tree:
+                yield direct_case(stream, f, nobj, lst, 'tree', **kw)
+        if oe:
+            yield direct_case(stream, f, nobj, lst, 'oe', cols=cols)
+
+
+def direct_addrem(stream, fam, nobj, exts, rng, n_each=1, cols='self', rels=None):
+    """add_concept / remove_concept around a list of m = len(exts) concepts, so that the size thresholds are CROSSED by the
+    helpers: add number 1, 3, .. holds one inner concept back and adds it in place (m-1 -> m concepts), add number 2, 4, ..
+    holds two back and adds either to the same base with inplace=False (m-2 -> m-1); remove_concept takes an inner concept
+    out of the full list (m -> m-1); shuffled listings, top/bottom indexes passed or None alternately"""
+    srt = sorted(exts, key=lambda e: (-len(e), sorted(e)))
+    inner = srt[1:-1]
+    k = 0
+    for i in range(n_each):
+        k += 1
+        held = [inner[j] for j in rng.sample(range(len(inner)), min(len(inner), 1 + i % 2))]
+        base = [e for e in srt if not any(e is h for h in held)]
+        rng.shuffle(base)
+        kw = dict(cols=cols, passtb=bool(k % 2), new=held[0], inplace=(i % 2 == 0), more=held[1:])
+        if rels:
+            kw['rel'] = dict(rels[k % len(rels)])
+        yield direct_case(stream, fam + ':add', nobj, base, 'add', **kw)
+    full = list(srt)
+    rng.shuffle(full)
+    idx = [i for i in range(len(full)) if 0 < len(full[i]) < nobj]
+    for i, ci in enumerate(rng.sample(idx, min(len(idx), n_each))):
+        k += 1
+        others = [x for x in idx if x != ci]
+        kw = dict(cols=cols, passtb=bool(k % 2), ci=ci, inplace=(i % 2 == 1), more=others[:1] if len(full) <= BIG_FROM else [])
+        if rels:
+            kw['rel'] = dict(rels[k % len(rels)])
+        yield direct_case(stream, fam + ':rem', nobj, full, 'rem', **kw)
+
+
+def sizegate_objects(rng, sizes):
+    """64/65, 128/129, 256/257 objects: 24 concepts, every routine with its model"""
+    rels = [r for r in ALL_RELS if r['src'] != 'oe' and r.get('keys') != 'shuf']
+    for si, n in enumerate(sizes):
+        exts = fam_objects(n)
+        assert nonclosed_witness(exts) is not None
+        for hi, how in enumerate(('shuf', 'desc', 'asc')):
+            if n > 129 and how != 'shuf':
+                continue
+            e2 = scramble(exts, rng, how)
+            fam = f'objects{n}:{how}'
+            orders = ('sorted', 'shuffled', 'ends', 'swap') if how == 'shuf' else ('shuffled', 'sorted')[:1 + (si + hi) % 2]
+            yield from direct_routines('sizegate-objects', fam, n, e2, rng, orders,
+                                       jobs=((2, 3, 5)[si % 3],) if how == 'shuf' else (), fst=(how == 'shuf'))
+            yield from direct_addrem('sizegate-objects', fam, n, e2, rng, n_each=3 if how == 'shuf' else 1,
+                                     rels=rels[(si + hi) % 3::3])
+            if how != 'shuf':
+                continue
+            full = scramble(close_family(exts), rng, 'shuf')
+            assert nonclosed_witness(full) is None
+            for lst in (listing(full, rng, 'shuffled'), listing(full, rng, 'sorted')):
+                yield direct_case('sizegate-objects', fam + ':closed', n, lst, 'oe')
+            yield direct_case('sizegate-objects', fam + ':closed', n, listing(full, rng, 'shuffled'), 'st', sorted=False, njobs=1)
+            yield direct_case('sizegate-objects', fam + ':closed', n, listing(full, rng, 'sorted'), 'cc', sorted=True, njobs=1)
+
+
+MID_MULTICHAIN = {64: (1, 49, 0), 65: (2, 25, 0), 128: (3, 37, 1), 129: (3, 38, 0)}
+
+
+def sizegate_mid(rng, sizes):
+    """64/65, 128/129 concepts (models are still run): a pruned Boolean lattice, an antichain, disjoint chains with cross
+    concepts (none of them intersection-closed) and a chain (complete)"""
+    for m in sizes:
+        k = 7 if m <= 100 else 8
+        w, ln, nc = MID_MULTICHAIN[m]
+        fams = [(f'boolean{k}/{m}', k, fam_boolean(k, m, rng), [[g for g in range(k) if g != j] for j in range(k)], False, ()),
+                (f'antichain{m}', m - 2, fam_antichain(m), 'self', False, ()),
+                (f'multichain{w}x{ln}/{m}', 4 + w * ln, fam_multichain(w, ln, nc), 'self', False, (8,)),
+                (f'chain{m}', m - 1, fam_chain(m), 'self', True, (2,))]
+        for fi, (fam, nobj, exts, cols, closed, par) in enumerate(fams):
+            assert len(exts) == m and closed == (nonclosed_witness(exts) is None), fam
+            e2 = scramble(exts, rng, 'shuf')
+            orders = ('shuffled', 'sorted') + (('ends', 'swap') if m < 100 else ())
+            yield from direct_routines('sizegate-mid', fam, nobj, e2, rng, orders, jobs=par, cols=cols, oe=closed,
+                                       fst=((m + fi) % 2 == 1))
+            yield from direct_addrem('sizegate-mid', fam, nobj, e2, rng, n_each=1, cols=cols)
+
+
+def sizegate_big(rng):
+    """999 .. 1004 concepts, judged by the proved-equal fast oracle"""
+    k = 10
+    cols = [[g for g in range(k) if g != j] for j in range(k)]
+    S = 'sizegate-big'
+    for m, plan in ((1000, 'full'), (999, 'st'), (1001, 'st'), (1004, 'cc')):
+        exts = scramble(fam_boolean(k, m, rng), rng, 'shuf')
+        fam = f'boolean{k}/{m}'
+        if plan == 'full':
+            # (about 250 chains: the threaded sweep would need 125 000 pool dispatches — it is run on the few-chain families)
+            lst = listing(exts, rng, 'shuffled')
+            for r, nj in (('cc', 1), ('cc', 2), ('st', 1), ('fst', 1)):
+                yield direct_case(S, fam + ':shuffled', k, lst, r, cols=cols, sorted=False, njobs=nj)
+            yield direct_case(S, fam + ':shuffled', k, lst, 'tree', cols=cols, sorted=False)
+            lst = listing(exts, rng, 'sorted')
+            for r, srt in (('cc', True), ('st', True), ('st', False)):
+                yield direct_case(S, fam + ':sorted', k, lst, r, cols=cols, sorted=srt, njobs=1)
+            yield direct_case(S, fam + ':sorted', k, lst, 'tree', cols=cols, sorted=True)
+            yield direct_case(S, fam + ':ends', k, listing(exts, rng, 'ends'), 'st', cols=cols, sorted=False, njobs=1)
+            yield direct_case(S, fam + ':swap', k, listing(exts, rng, 'swap'), 'cc', cols=cols, sorted=False, njobs=1)
+            yield from direct_addrem(S, fam, k, exts, rng, n_each=2, cols=cols)      # 999 -> 1000, 1000 -> 999, ...
+        else:
+            lst = listing(exts, rng, 'shuffled' if m != 1001 else 'ends')
+            yield direct_case(S, fam, k, lst, 'st', cols=cols, sorted=False, njobs=1)
+            yield direct_case(S, fam, k, lst, 'cc', cols=cols, sorted=False, njobs=1)
+            if m == 1001:
+                yield from direct_addrem(S, fam, k, exts, rng, n_each=1, cols=cols, rels=[dict(src='st'), dict(src='cc')])
+    full = scramble(fam_boolean(k, 1 << k, rng), rng, 'shuf')
+    for how in ('shuffled', 'sorted'):
+        yield direct_case(S, f'boolean{k}/complete:{how}', k, listing(full, rng, how), 'oe', cols=cols)
+    # the gadget next to disjoint long chains and cross concepts: 996 objects, supports up to 124, not intersection-closed
+    exts = scramble(fam_multichain(8, 124, 2), rng, 'shuf')
+    assert nonclosed_witness(exts) is not None and len(exts) >= 1000
+    fam = f'multichain8x124/{len(exts)}'
+    lst = listing(exts, rng, 'shuffled')
+    for r, nj in (('st', 1), ('cc', 1), ('cc', 3)):
+        yield direct_case(S, fam, 4 + 8 * 124, lst, r, sorted=False, njobs=nj)
+    yield direct_case(S, fam, 4 + 8 * 124, lst, 'tree', sorted=False)
+    lst = listing(exts, rng, 'sorted')
+    yield direct_case(S, fam + ':sorted', 4 + 8 * 124, lst, 'st', sorted=True, njobs=1)
+    yield direct_case(S, fam + ':sorted', 4 + 8 * 124, lst, 'cc', sorted=True, njobs=1)
+    yield from direct_addrem(S, fam, 4 + 8 * 124, exts, rng, n_each=1)
+    # the threaded sweep costs one pool dispatch (10-20 ms of sleeping) per concept and batch of n_jobs chains: run once,
+    # on three long chains next to the gadget (about 9 chains in the tree: one batch with n_jobs=16)
+    exts = scramble(fam_multichain(3, 329), rng, 'shuf')
+    assert nonclosed_witness(exts) is not None and len(exts) >= 1000
+    yield direct_case(S, f'multichain3x329/{len(exts)}', 4 + 3 * 329, listing(exts, rng, 'shuffled'), 'st', sorted=False,
+                      njobs=16)
+    # an antichain and a chain with more than 1000 members
+    exts = scramble(fam_antichain(1002), rng, 'shuf')
+    lst = listing(exts, rng, 'shuffled')
+    for r in ('st', 'cc', 'tree'):
+        yield direct_case(S, 'antichain1002', 1000, lst, r, sorted=False, **({} if r == 'tree' else dict(njobs=1)))
+    yield direct_case(S, 'antichain1002:sorted', 1000, listing(exts, rng, 'sorted'), 'st', sorted=True, njobs=1)
+    # (every comparison of two concepts builds a set of the larger extent: the 1001-chain costs 20 s per sweep — once)
+    exts = scramble(fam_chain(1001), rng, 'shuf')
+    lst = listing(exts, rng, 'shuffled')
+    yield direct_case(S, 'chain1001', 1000, lst, 'st', sorted=False, njobs=1)
+    yield direct_case(S, 'chain1001', 1000, lst, 'oe')
+    yield from direct_addrem(S, 'chain1001', 1000, exts, rng, n_each=1)
+
+
+def spread(main, heavy, every):
+    """the heavy cases one by one between the ordinary ones (`every` apart: one per chunk of work)"""
+    heavy = iter(heavy)
+    k = 0
+    for c in main:
+        yield c
+        k += 1
+        if k % every == 0:
+            h = next(heavy, None)
+            if h is not None:
+                yield h
+    yield from heavy
+
+
 def corpus_cases():
     import glob
     import json
@@ -619,9 +1183,7 @@ def corpus_cases():
         yield c
 
 
-def gen(tier, seed, boost=False):
-    rng = random.Random(seed * 1000003 + 1201)
-    yield from corpus_cases()
+def ordinary(tier, seed, boost, rng):
     full = tier == 'thorough'
     swis = (None, 1e-6, 1e-5, 1e-3) if full else (None,)
     yield from exhaustive(G.tables_upto(3, 3), rng, 'exhaustive', par_all=full, swis=swis, inner_cap=6)
@@ -641,6 +1203,29 @@ def gen(tier, seed, boost=False):
     yield from malformed(rng, G.tables_upto(3, 3))
 
 
+def heavy_cases(tier, seed):
+    """the 1000-concept cases (most expensive first: they are handed to the workers while the rest runs), then the
+    64..129-concept ones"""
+    rng = random.Random(seed * 7919 + 1208)
+    big = list(sizegate_big(rng))
+    cost = lambda c: (0 if c['fam'].startswith('chain1001') and c['routine'] == 'st' else
+                      1 if c.get('njobs', 1) > 3 else 2 if c['fam'].startswith('chain1001') else 3)
+    big.sort(key=cost)
+    yield from big
+    yield from sizegate_mid(rng, (64, 65, 128, 129))
+    if tier == 'thorough':
+        for _ in range(2):
+            yield from sizegate_big(rng)
+
+
+def gen(tier, seed, boost=False):
+    rng = random.Random(seed * 1000003 + 1201)
+    yield from corpus_cases()
+    rng_o = random.Random(seed * 104729 + 1207)
+    objs = sizegate_objects(rng_o, (64, 65, 128, 129, 256, 257) + ((512, 513, 1024, 1025) if tier == 'thorough' else ()))
+    yield from spread(itertools.chain(objs, ordinary(tier, seed, boost, rng)), heavy_cases(tier, seed), 100)
+
+
 # ---------------------------------------------------------------------------------------------------
 
 def nontrivial(c):
@@ -656,6 +1241,9 @@ def branch(c, io, rep):
     r = c['routine']
     out = [c['stream'], r + (':sorted' if c.get('sorted') else ''), 'err' if 'err' in io else 'ok',
            'size:%d' % min(len(c['exts']), 10)]
+    if c.get('fam'):
+        out.append('fam:' + c['fam'].split(':')[0].split('/')[0].rstrip('0123456789') + ':n=%d' % len(c['exts']))
+        out.append('objects>=%d' % max(k for k in (0, 64, 65, 128, 129, 256, 257, 1000) if c['nobj'] >= k))
     if c.get('njobs', 1) > 1:
         out.append(f'{r}:n_jobs={c["njobs"]}' + (':swi' if c.get('swi') else ''))
     if c.get('ctype'):
@@ -692,7 +1280,27 @@ def signature(c, io, rep, v):
     return f"C12:{r}:{'sorted' if c.get('sorted') else 'unsorted'}:{mode}:{v.get('kind')}:{what}"
 
 
+def shrink_big(c):
+    """1000-concept cases: try to drop halves, quarters, eighths of the list (each candidate costs seconds)"""
+    exts = c['exts']
+    n = len(exts)
+    if c['routine'] in ('add', 'rem', 'oe'):
+        return
+    keep = set(top_bottom(exts))
+    for parts in (2, 4, 8):
+        size = n // parts
+        for k in range(parts):
+            rest = [e for i, e in enumerate(exts) if not (k * size <= i < (k + 1) * size) or i in keep]
+            d = dict(c, exts=rest)
+            if len(rest) <= BIG_FROM:
+                d.pop('big', None)
+            yield d
+
+
 def shrink(c):
+    if c.get('big'):
+        yield from shrink_big(c)
+        return
     exts = c['exts']
     r = c['routine']
     if r == 'oe':
@@ -746,3 +1354,63 @@ def shrink(c):
         d = dict(c)
         d['njobs'] = 2
         yield d
+
+
+# ---------------------------------------------------------------------------------------------------
+# caspailleur / order_extents_comparison stream (harness/casp_stream.py), hooked in by the integrator:
+# the code-shaped Lean model of caspailleur.order (Model/Caspailleur.lean) is compared with the real functions level by
+# level on every case; on duplicate-free intersection-closed families the implementation's dict must also equal the Lean
+# spec covers (theorem C12.order_extents_comparison_code_exact).  Cases carry the stream prefix 'casp-'.
+# ---------------------------------------------------------------------------------------------------
+import casp_stream as CASP  # noqa: E402
+
+TRUSTED = [t for t in TRUSTED if 'caspailleur' not in t.lower()] + [
+    'caspailleur.order / order_extents_comparison: code-shaped model (Model/Caspailleur.lean), contract proved on '
+    'intersection-closed duplicate-free families and compared level by level with the real functions on every run; '
+    'trusted there: bitarray primitives (search ascending, find, &, |, ~, count) and Python sorted/dict semantics']
+
+
+def _is_casp(c):
+    return str(c.get('stream', '')).startswith('casp-')
+
+
+def _unc(c):
+    return dict(c, stream=c['stream'][5:])
+
+
+def _dispatch(name, casp_fn):
+    orig = globals()[name]
+
+    def f(c, *a):
+        if _is_casp(c):
+            return casp_fn(_unc(c), *a)
+        return orig(c, *a)
+    f.__name__ = name
+    globals()[name] = f
+
+
+for _n in ('impl', 'requests', 'judge', 'key', 'nontrivial', 'branch', 'signature'):
+    _dispatch(_n, getattr(CASP, _n))
+
+_gen_c12, _shrink_c12 = gen, shrink
+
+
+def gen(tier, seed, boost=False):
+    casp = (dict(c, stream='casp-' + c['stream']) for c in CASP.cases(tier, seed))
+    # interleave: one caspailleur case per 25 ordinary ones, the rest at the end (the stream is cheap: ~1 ms per case)
+    it = iter(casp)
+    for i, c in enumerate(_gen_c12(tier, seed, boost)):
+        yield c
+        if i % 25 == 24:
+            x = next(it, None)
+            if x is not None:
+                yield x
+    yield from it
+
+
+def shrink(c):
+    if _is_casp(c):
+        for s in CASP.shrink(_unc(c)):
+            yield dict(s, stream='casp-' + s['stream'])
+        return
+    yield from _shrink_c12(c)
